@@ -86,6 +86,8 @@ pub struct Options {
     pub prims: Vec<(String, String)>,
     /// structs of the file to emit as Lean structures
     pub structs: Vec<String>,
+    /// structs with one field that are represented by that field (`ComponentAccess { cases }` is the list of cases)
+    pub transparent: Vec<String>,
 }
 
 #[derive(Debug)]
@@ -111,6 +113,8 @@ enum Ty {
     Fn(Vec<Ty>, Box<Ty>),
     /// `ManuallyDrop<T>`: a cell that holds a value or has been emptied
     Cell(Box<Ty>),
+    /// an iterator over a list (`v.iter()`, and what `chain` / `map` / `cloned` make of it): the list
+    Iter(Box<Ty>),
     Phantom,
     /// not known to the translator (a `None` literal, a deferred `let`)
     Unknown,
@@ -123,7 +127,7 @@ impl Ty {
             Ty::Bool => "Bool".into(),
             Ty::Unit | Ty::Phantom | Ty::Unknown => "Unit".into(),
             Ty::Named { lean, .. } => lean.clone(),
-            Ty::Vec(t) => format!("List {}", paren_ty(&t.lean())),
+            Ty::Vec(t) | Ty::Iter(t) => format!("List {}", paren_ty(&t.lean())),
             Ty::Opt(t) | Ty::Cell(t) => format!("Option {}", paren_ty(&t.lean())),
             Ty::Tuple(ts) => ts.iter().map(|t| paren_ty(&t.lean())).collect::<Vec<_>>().join(" × "),
             Ty::Fn(a, r) => {
@@ -196,6 +200,9 @@ impl PlaceInfo {
                 format!("{{ {base} with {p} := {} }}", upd(format!("{base}.{p}"), &path[1..], v))
             }
         }
+        if self.lean_path.is_empty() {
+            return v.to_string(); // a transparent struct: the place is the variable itself
+        }
         upd(lean_ident(&self.base), &self.lean_path, v)
     }
 }
@@ -216,6 +223,10 @@ enum Kind {
     /// `let x;`
     Deferred { init: bool },
     MutBorrow(Borrow),
+    /// `let mut x = e;`
+    MutLocal,
+    /// bound by `for x in &mut v`: assignments through it change the element
+    ElemMut,
 }
 
 #[derive(Clone, Debug)]
@@ -586,10 +597,18 @@ impl<'a> Tr<'a> {
                         if let Some((_, f)) = self.closures.iter().find(|(n, _)| *n == name) {
                             return Ok(f.clone());
                         }
-                        match self.named(&name) {
-                            Some(t) => Ok(t),
-                            None => self.err(t.span(), format!("no Lean type given for the Rust type `{name}` (use --type {name}=<LeanType>)")),
+                        if let Some(nt) = self.named(&name) {
+                            return Ok(nt);
                         }
+                        // a type alias of the file
+                        for it in &self.file.items {
+                            if let Item::Type(ta) = it {
+                                if ta.ident == name.as_str() && ta.generics.params.is_empty() {
+                                    return self.ty(&ta.ty);
+                                }
+                            }
+                        }
+                        self.err(t.span(), format!("no Lean type given for the Rust type `{name}` (use --type {name}=<LeanType>)"))
                     }
                     syn::PathArguments::AngleBracketed(ab) => {
                         if name == "PhantomData" {
@@ -667,6 +686,12 @@ impl<'a> Tr<'a> {
                 },
                 _ => return self.err(sp, format!("outside the supported subset: field access on `{rust}`, which is not a struct with named fields defined in this file")),
             };
+            if self.opts.transparent.iter().any(|t| *t == rust) {
+                // the struct is its only field
+                cur = self.ty(&fty)?;
+                i += 1;
+                continue;
+            }
             if let Some(u) = self.union_of(&fty) {
                 let m = match segs.get(i + 1) {
                     Some(m) => m,
@@ -893,7 +918,7 @@ fn assignable(slot: &Ty, v: &Ty) -> bool {
         (Ty::Opt(_), Ty::Opt(b)) if **b == Ty::Unit => true, // `None`
         (Ty::Opt(a), Ty::Opt(b)) => assignable(a, b),
         (Ty::Cell(a), Ty::Cell(b)) => assignable(a, b),
-        (Ty::Vec(a), Ty::Vec(b)) => assignable(a, b),
+        (Ty::Vec(a), Ty::Vec(b)) | (Ty::Iter(a), Ty::Iter(b)) => assignable(a, b),
         (Ty::Tuple(a), Ty::Tuple(b)) => a.len() == b.len() && a.iter().zip(b).all(|(x, y)| assignable(x, y)),
         _ => slot == v,
     }
@@ -1067,6 +1092,13 @@ fn assigned_in_expr(e: &Expr, out: &mut Vec<String>, lets: &mut Vec<String>) {
             }
         }
         Expr::MethodCall(m) => {
+            // a method may change its receiver: `@x` marks the receiver's root (kept only for `let mut` locals)
+            if let Some(x) = root_ident(&m.receiver) {
+                let tag = format!("@{x}");
+                if !out.contains(&tag) {
+                    out.push(tag);
+                }
+            }
             assigned_in_expr(&m.receiver, out, lets);
             for a in &m.args {
                 assigned_in_expr(a, out, lets);
@@ -1089,6 +1121,11 @@ fn assigned_in_expr(e: &Expr, out: &mut Vec<String>, lets: &mut Vec<String>) {
                 pat_names(&a.pat, lets);
                 assigned_in_expr(&a.body, out, lets);
             }
+        }
+        Expr::ForLoop(f) => {
+            pat_names(&f.pat, lets);
+            assigned_in_expr(&f.expr, out, lets);
+            assigned_in_stmts(&f.body.stmts, out, lets);
         }
         Expr::Block(b) => assigned_in_stmts(&b.block.stmts, out, lets),
         Expr::Unsafe(u) => assigned_in_stmts(&u.block.stmts, out, lets),
